@@ -155,7 +155,7 @@ impl Property for C14 {
     fn assumptions(&self) -> Vec<String> {
         vec![
             "fairness: after at most max_hostile bad reactions to a request a correct answer follows (the property's premise 'some peer keeps answering correctly')".into(),
-            "paused clock: repair's std::time expiry stamps do not advance; the retry timer fires after 500 virtual ms of silence".into(),
+            "paused clock (the node's timers read it through the verif-hooks feature): an unanswered request is re-sent after 500 virtual ms; the scripted peer answers every request it has received before time advances".into(),
         ]
     }
     fn strategy(&self, _tier: Tier) -> BoxedStrategy<Case> {
@@ -320,10 +320,11 @@ async fn run(case: &Case) -> Outcome {
             if done {
                 break;
             }
-            // under the paused clock every retry-timer firing handles one heap entry (stale or
-            // outstanding) and takes 500 virtual ms, so the budget is counted in entries
+            // every outstanding request expires after 2 * DELTA = 500 virtual ms (the node's timers
+            // read tokio's paused clock through the verif-hooks feature) and is then re-sent; a
+            // few consecutive idle rounds without any new request mean the repair has given up
             idle_rounds += 1;
-            if idle_rounds > 64 * 3 + 40 {
+            if idle_rounds > 8 {
                 break;
             }
             // nothing pending: let the retry timer run
@@ -369,21 +370,19 @@ async fn run(case: &Case) -> Outcome {
                 deliver(correct);
             }
             Reaction::Nack => deliver(RepairResponse::Nack(rtype.clone())),
-            Reaction::Silence => {
-                tokio::time::sleep(std::time::Duration::from_millis(600)).await;
-            }
+            // no answer: the request is retried when its timer fires, which happens while the
+            // harness idles (queue empty) below
+            Reaction::Silence => {}
             Reaction::Replay => {
                 if let Some(old) = history.first().cloned() {
                     deliver(old);
                 }
                 // the request itself stays unanswered until its retry
-                tokio::time::sleep(std::time::Duration::from_millis(600)).await;
             }
             Reaction::Unsolicited => {
                 let fake = RepairRequestType::SliceRoot(bid(case.block.slot + 1, 999), slice_index(0));
                 deliver(RepairResponse::Nack(fake));
                 deliver(RepairResponse::SliceRoot(RepairRequestType::SliceRoot(id.clone(), slice_index(777)), built.slices[0].root.clone(), vec![].into()));
-                tokio::time::sleep(std::time::Duration::from_millis(600)).await;
             }
             Reaction::CorruptProof => {
                 let bad = match correct {
